@@ -28,6 +28,6 @@ CONSTANTS
   EVENTS = {"Undelegate","Slash","EndBlock","ReleaseHold","Delegate"}
   FAILBUDGET = 99
   WANTED <- c_WANTED
-VIEW View
+VIEW ViewG
 INVARIANTS EmitGoals
 CHECK_DEADLOCK FALSE
